@@ -33,7 +33,9 @@ from liquid2 import CachingLoaderMixin
 from liquid2 import ChoiceLoader
 from liquid2 import DictLoader
 from liquid2 import FileSystemLoader
+from liquid2 import StrictUndefined
 from liquid2.exceptions import LiquidError
+from liquid2.undefined import FalsyStrictUndefined
 
 CFG = Cfg(
     wc_rate=0.05, shopify=True, tablerow=True, confusion=0.08, budget=12, max_depth=3,
@@ -73,6 +75,7 @@ def diff_case(draw: Any) -> dict[str, Any]:
         "loader": draw(st.sampled_from(LOADERS)),
         "mask": draw(st.integers(0, 15)),
         "via": draw(st.sampled_from(["from_string", "get_template"])),
+        "undefined": draw(st.sampled_from(["default", "default", "default", "strict", "falsy"])),
         # resource limits are enforced by hand-written sync/async twins as well
         "limits": draw(st.sampled_from([None, None, None, {"loop_iteration_limit": 6}, {"loop_iteration_limit": 12},
                                         {"loop_iteration_limit": 30}, {"output_stream_limit": 40},
@@ -160,6 +163,18 @@ class C03(Prop):
                         yield {"kind": "diff", "src": src, "templates": templates, "data": data, "loader": loader,
                                "mask": (oi + ii) % 16, "via": "from_string",
                                "limits": {"loop_iteration_limit": limit}, "family": f"limit-nest:{on}:{inn}"}
+        # what is evaluated at all (short-circuit, branches not taken) under the strict undefined policies
+        for src in (
+            "{% if false and x == 1 %}t{% else %}f{% endif %}", "{% if n or x contains 'a' %}t{% else %}f{% endif %}",
+            "{% if nil and (x == 1 or x contains 2) %}t{% else %}f{% endif %}", "{{ 'a' if n or x == 1 else 'b' }}",
+            "{% unless n or x > 1 %}t{% else %}f{% endunless %}", "{% if n %}t{% elsif x == 1 %}e{% endif %}",
+            "{% if n or x.y == 1 and x %}t{% endif %}", "{{ n | default: x }}", "{% case n %}{% when 3 %}a{% when x %}b{% endcase %}",
+            "{% for i in nums limit: 1 %}{{ i }}{% else %}{{ x }}{% endfor %}", "{{ x if false else n }}",
+            "{% assign v = x %}{% capture c %}{{ n }}{% endcapture %}{{ c }}", "{% if x %}t{% else %}f{% endif %}{{ x.y }}",
+        ):
+            for pol in ("strict", "falsy"):
+                yield {"kind": "diff", "src": src, "templates": {}, "data": {"n": 3, "nums": [1, 2]}, "loader": "dict",
+                       "mask": 0, "via": "from_string", "limits": None, "undefined": pol, "family": "strict-twins"}
         # depth and output limits across include / render / extends chains
         chain = {"d1": "1{% include 'd2' %}", "d2": "2{% render 'd3' %}", "d3": "3{% include 'd4' %}", "d4": "4{% render 'd5' %}",
                  "d5": "5", "base": "[{% block b %}B{% endblock %}]",
@@ -254,8 +269,12 @@ class C03(Prop):
         if limits:
             res.labels.append("limit:" + next(iter(limits)))
 
+        policy = {"strict": StrictUndefined, "falsy": FalsyStrictUndefined}.get(case.get("undefined", "default"))
+        if policy is not None:
+            res.labels.append("undefined:" + case["undefined"])
+
         def fresh() -> Any:
-            return make_env(shopify=True, loader=self._loader(kind, templates, tmp), limits=limits)
+            return make_env(shopify=True, loader=self._loader(kind, templates, tmp), limits=limits, undefined=policy)
 
         def data() -> dict[str, Any]:
             d = wrap_async(case["data"], case["mask"])
